@@ -629,7 +629,8 @@ def c05():
     ck.cov["programs"] = len(progs)
     ok = usable(progs)
     load_schemas(ok)
-    recs = export_records([(p.key, p.schema) for p in ok], 2, 40 if q else 300, ck.seed)
+    cap = int(os.environ.get("VERIF_C05_CAP", "40" if q else "300"))
+    recs = export_records([(p.key, p.schema) for p in ok], 2, cap, ck.seed)
     for p in ok:
         rr = recs[p.key]["recs"]
         k = len(rr)
